@@ -14,6 +14,10 @@ Fr = sf.Fr
 TABLE = [(n, sf.A(lambda r: sf.rq(r, -3, 6), lambda r: sf.posq(r, 25)), sf.F1(n)) for n in ["besselj", "bessely", "besseli", "besselk", "struveh", "struvel", "angerj", "webere"]] + \
         [(n, sf.A(lambda r: sf.rq(r, -12, 12)), sf.F1(n)) for n in ["airyai", "airybi", "scorergi", "scorerhi"]] + \
         [(n, sf.A(lambda r: Fr(r.randint(0, 3)), lambda r: sf.posq(r, 12)), sf.F1(n)) for n in ["ber", "bei", "ker"]] + [
+    ("bessely-near-integer-order", sf.A(lambda r: r.randint(-3, 8) + Fr(r.choice([1, -1]), 2 ** r.randint(8, 45)), lambda r: sf.posq(r, 25)), sf.F1("bessely")),
+    ("besselk-near-integer-order", sf.A(lambda r: r.randint(-3, 8) + Fr(r.choice([1, -1]), 2 ** r.randint(8, 45)), lambda r: sf.posq(r, 25)), sf.F1("besselk")),
+    ("besselj-near-integer-order", sf.A(lambda r: r.randint(-3, 8) + Fr(r.choice([1, -1]), 2 ** r.randint(8, 45)), lambda r: sf.posq(r, 25)), sf.F1("besselj")),
+    ("hankel1-near-integer-order", sf.A(lambda r: r.randint(0, 6) + Fr(r.choice([1, -1]), 2 ** r.randint(8, 45)), lambda r: sf.posq(r, 25)), sf.F1("hankel1")),
     ("besselj-complex", sf.A(lambda r: sf.rq(r, -2, 4), sf.cq), sf.F1("besselj")),
     ("coulombf", sf.A(lambda r: Fr(r.randint(0, 3)), lambda r: sf.rq(r, -2, 2), lambda r: sf.posq(r, 10)), sf.F1("coulombf")),
     ("coulombg", sf.A(lambda r: Fr(r.randint(0, 3)), lambda r: sf.rq(r, -2, 2), lambda r: sf.posq(r, 10)), sf.F1("coulombg")),
@@ -28,9 +32,9 @@ TABLE = [(n, sf.A(lambda r: sf.rq(r, -3, 6), lambda r: sf.posq(r, 25)), sf.F1(n)
 
 def gen(chk, mpmath, rng):
     mp = mpmath.mp
-    for item in sf.samereal(chk, mpmath, rng, TABLE, 8, chk.pick(200, 9000), PROP):
+    for item in sf.samereal(chk, mpmath, rng, TABLE, 8, chk.pick(130, 9000), PROP, hiprec=0.05):
         yield item
-    for i in range(chk.pick(150, 5000)):
+    for i in range(chk.pick(100, 5000)):
         p = rng.choice([30, 53, 53, 100, 200]); mp.prec = p
         c = rng.random()
         try:
